@@ -65,8 +65,19 @@ fn gen_reply(r: &mut Rng) -> Vec<u8> {
     let mut out = vec![];
     let nframes = match r.below(6) { 0 => 0, 1 | 2 | 3 => 1, 4 => 2, _ => 3 };
     let list = nframes != 1 || r.below(4) == 0;
+    // a third of the replies draw their field names from a small per-reply subset (2..4 names), so that REPEATED fields and the
+    // short structured sequences of grouped replies (`Album` / `songs` / `songs`, `file` / `sticker` / `sticker`, ...) occur
+    // ... and one reply in eight is a grouped count / grouped list shape over five names with small numeric values
+    const GROUPED: [&str; 5] = ["Album", "Artist", "songs", "playtime", "Title"];
+    let grouped = r.below(8) == 0;
+    let focus: Vec<&str> = if grouped { GROUPED.to_vec() } else { (0..2 + r.below(3)).map(|_| KEYS[r.below(KEYS.len())]).collect() };
+    let focused = grouped || r.below(3) == 0;
     for _ in 0..nframes {
-        for _ in 0..r.below(9) { out.extend(format!("{}: {}\n", KEYS[r.below(KEYS.len())], VALS[r.below(VALS.len())]).as_bytes()); }
+        for _ in 0..r.below(9) {
+            let k = if focused { focus[r.below(focus.len())] } else { KEYS[r.below(KEYS.len())] };
+            let v = if grouped && r.below(4) != 0 { VALS[r.below(3)] } else { VALS[r.below(VALS.len())] };
+            out.extend(format!("{}: {}\n", k, v).as_bytes());
+        }
         if r.below(6) == 0 { out.extend(b"binary: 3\nabc\n"); }
         if list { out.extend(b"list_OK\n"); }
     }
